@@ -11,6 +11,7 @@ require (
 require (
 	github.com/database64128/netx-go v0.1.1 // indirect
 	github.com/database64128/tfo-go/v2 v2.3.3 // indirect
+	github.com/gaissmai/bart v0.29.0 // indirect
 	github.com/klauspost/cpuid/v2 v2.3.0 // indirect
 	go.uber.org/multierr v1.11.0 // indirect
 	golang.org/x/sys v0.47.0 // indirect
